@@ -348,7 +348,6 @@ impl<L: ChainListener> ChainTracker<L> {
                     supplied_prev_headers.0.block_hash().to_string()
                 ));
             }
-            self.headers.pop_front();
         };
 
         let mut prev_headers = supplied_prev_headers;
@@ -379,6 +378,9 @@ impl<L: ChainListener> ChainTracker<L> {
                 )),
             ProofType::ExternalBlock() => self.notify_listeners_remove(None, tip_block_hash),
         };
+
+        // only forget the previous header once the removal was validated
+        self.headers.pop_front();
 
         info!("removed block {}: {}", self.height, &self.tip.0.block_hash());
         mem::swap(&mut self.tip, &mut prev_headers);
